@@ -123,7 +123,7 @@ def r11a(ctx):
     good = any(isinstance(r, ast.Return) and unparse(r.value) == "len(self._partitions)" and any(pol and unparse(t) == "self._filtered" for t, pol in flow.facts(p)) for p in flow.returns(npart) for r in [p.stmt])
     (ctx.ok if good else ctx.bad)("_expr.PartitionsFiltered.npartitions", pf.module.loc(npart), "len(self._partitions) when filtered" if good else "npartitions of a filtered expression is not the number of selected partitions")
     div = model.method(pf, "divisions", own=True).node
-    _check_division_pick(ctx, pf, div, "full_divisions", "self._partitions", "_expr.PartitionsFiltered.divisions")
+    _check_division_pick(ctx, pf, div, "super().divisions", "self._partitions", "_expr.PartitionsFiltered.divisions")
     parts = model.cls("Partitions")
     _check_division_pick(ctx, parts, model.method(parts, "_divisions", own=True).node, "self.frame.divisions", "self.partitions", "_expr.Partitions._divisions")
     t = model.method(parts, "_task", own=True).node
@@ -136,15 +136,21 @@ def r11a(ctx):
 
 
 def _check_division_pick(ctx, cls, fn, seq, parts, cid):
-    """new = [seq[part] for part in parts] + [seq[part + 1]]"""
+    """new = [seq[part] for part in parts] + [seq[part + 1]]  (seq may be held in a local)"""
+    from sa.rules.util import pfind
+
+    defs = flow.Defs(fn)
     loops = [n for n in ast.walk(fn) if isinstance(n, ast.For) and unparse(n.iter) == parts and isinstance(n.target, ast.Name)]
     ok = False
     for lp in loops:
         v = lp.target.id
-        inside = any(isinstance(c, ast.Call) and isinstance(c.func, ast.Attribute) and c.func.attr == "append" and unparse(c.args[0]) == f"{seq}[{v}]" for c in ast.walk(lp))
-        after = any(isinstance(c, ast.Call) and isinstance(c.func, ast.Attribute) and c.func.attr == "append" and unparse(c.args[0]) == f"{seq}[{v} + 1]" and not flow.contains(lp, c) for c in ast.walk(fn))
-        if inside and after:
-            ok = True
+        for c, b in pfind(f"V_new.append(V_seq[{v}])", lp):
+            seq_x = unparse(defs.expand(c.args[0].value, at=lp))
+            if seq_x != seq:
+                continue
+            after = [c2 for c2, _ in pfind(f"V_new.append(V_seq[{v} + 1])", fn, b) if not flow.contains(lp, c2)]
+            if after:
+                ok = True
     (ctx.ok if ok else ctx.bad)(cid, cls.module.loc(fn), "lower bounds of the selected partitions + upper bound of the last" if ok else f"divisions of a selection are not [{seq}[p] for p in {parts}] + [{seq}[last + 1]]")
 
 
